@@ -16,10 +16,27 @@ pub struct Out {
 
 pub fn judge(seed: &'static str, word: &[Op]) -> Option<Out> {
     let case = hist::case_json(seed, word);
-    let (um, fail) = hist::replay(seed, word);
-    if fail.is_some() {
-        return None;
+    // every reachable state counts, also the ones left by a call that returned an error
+    let mut um = if seed.starts_with("fresh:") {
+        let mut it = seed[6..].split('/');
+        let loc = it.next().unwrap_or("en");
+        let lang = it.next().unwrap_or("en");
+        let loc_s: &'static str = crate::fnum::LOCALES.iter().find(|l| **l == loc).copied().unwrap_or("en");
+        let lang_s: &'static str = crate::props::c23::LANGS.iter().find(|l| **l == lang).copied().unwrap_or("en");
+        UserModel::new_empty("fresh", loc_s, "UTC", lang_s).ok()?
+    } else {
+        seeds::load(seed)
+    };
+    let mut failed: Vec<&'static str> = vec![];
+    for op in word {
+        match crate::env::guarded(|| op.apply(&mut um)) {
+            Err(_) => return None, // panics are C27's / C11's subject
+            Ok(Err(_)) => failed.push(op.kind()),
+            Ok(Ok(())) => {}
+        }
     }
+    // a state left by a call that returned an error is named in the signature (C04 judges the call itself)
+    let ctx = if failed.is_empty() { String::new() } else { format!(" after-failed={}", failed.join("+")) };
     let mut ds = vec![];
     let o = ObsOpts { view: true, ..Default::default() };
     let key = obs::state_key(um.get_model());
@@ -34,20 +51,41 @@ pub fn judge(seed: &'static str, word: &[Op]) -> Option<Out> {
             return Some(Out { ds, key });
         }
         Ok(Err(e)) => {
-            ds.push(Disagreement { sig: format!("from_bytes-error last-op={}", last), case, detail: format!("from_bytes(to_bytes(m)) failed: {}", e) });
+            ds.push(Disagreement { sig: format!("from_bytes-error last-op={}{}", last, ctx), case, detail: format!("from_bytes(to_bytes(m)) failed: {}", e) });
             return Some(Out { ds, key });
         }
         Ok(Ok(m)) => m,
     };
     // 1. identical workbook structure
-    if um.get_model().workbook != um2.get_model().workbook {
-        let a = obs::state_text(um.get_model());
-        let b = obs::state_text(um2.get_model());
+    // from_bytes evaluates the loaded workbook, and the origin / message recorded inside an error value depend on where
+    // that evaluation happened to start (e.g. which cell of a cycle reports #CIRC! first); they are not values, contents
+    // or formula texts, so the structures are compared modulo those two fields
+    let strip = |t: String| -> String {
+        let mut out = String::with_capacity(t.len());
+        let mut rest = t.as_str();
+        while let Some(i) = rest.find(", o: \"") {
+            out.push_str(&rest[..i]);
+            let tail = &rest[i..];
+            match tail.find(" }") {
+                Some(j) => rest = &tail[j..],
+                None => {
+                    rest = "";
+                }
+            }
+        }
+        out.push_str(rest);
+        out
+    };
+    let ta = strip(obs::state_text(um.get_model()));
+    let tb = strip(obs::state_text(um2.get_model()));
+    if ta != tb {
+        let a = ta.clone();
+        let b = tb.clone();
         let pos = a.bytes().zip(b.bytes()).position(|(x, y)| x != y).unwrap_or(0);
         let mut lo = pos.saturating_sub(80);
         while !a.is_char_boundary(lo) { lo -= 1; }
         ds.push(Disagreement {
-            sig: format!("workbook-differs-after-reload last-op={}", last),
+            sig: format!("workbook-differs-after-reload last-op={}{}", last, ctx),
             case: case.clone(),
             detail: format!("decode(encode(w)) != w near: `{}` vs `{}`", a.get(lo..).map(|x| x.chars().take(160).collect::<String>()).unwrap_or_default(), b.get(lo..).map(|x| x.chars().take(160).collect::<String>()).unwrap_or_default()),
         });
@@ -58,7 +96,7 @@ pub fn judge(seed: &'static str, word: &[Op]) -> Option<Out> {
     if oa != ob {
         let df = obs::diff(&oa, &ob);
         ds.push(Disagreement {
-            sig: format!("observation-differs-after-reload fields={}", classes(&df)),
+            sig: format!("observation-differs-after-reload fields={}{}", classes(&df), ctx),
             case: case.clone(),
             detail: format!("reloaded model (right) differs from the original (left):\n{}", obs::diff_text(&df, 8)),
         });
@@ -68,7 +106,7 @@ pub fn judge(seed: &'static str, word: &[Op]) -> Option<Out> {
         if oa != oc {
             let df = obs::diff(&oa, &oc);
             ds.push(Disagreement {
-                sig: format!("evaluation-after-reload-differs fields={}", classes(&df)),
+                sig: format!("evaluation-after-reload-differs fields={}{}", classes(&df), ctx),
                 case: case.clone(),
                 detail: format!("evaluating the reloaded model changes it (right) against the original (left):\n{}", obs::diff_text(&df, 8)),
             });
@@ -80,11 +118,25 @@ pub fn judge(seed: &'static str, word: &[Op]) -> Option<Out> {
 pub fn run(run: &mut Run) {
     let thorough = run.tier.thorough();
     let mut full = seeds::alphabet_full();
-    full.extend(vec![Op::SetLanguage("de".into()), Op::SetLanguage("fr".into()), Op::Undo]);
+    full.extend(vec![
+        Op::SetLanguage("de".into()),
+        Op::SetLanguage("fr".into()),
+        Op::Undo,
+        // calls that fail (or are repaired on entry) must not leave something behind that does not survive the round trip
+        Op::SetTimezone("Mars/Olympus".into()),
+        Op::SetLocale("xx".into()),
+        Op::RenameSheet(0, "a/b".into()),
+        Op::NewName("1bad".into(), None, "Sheet1!$A$1".into()),
+        Op::Input(0, 6, 1, "=SUM(1,5;2)".into()),
+        Op::Input(0, 6, 2, "=IF(A1>1;\"x\";\"y\")".into()),
+        Op::Input(0, 6, 3, "1,5".into()),
+    ]);
     let core = seeds::alphabet_core();
     let all_seeds: Vec<&'static str> = seeds::SEEDS.to_vec();
     let mut plans: Vec<(HistCfg, usize, &str)> = vec![
         (HistCfg { seeds: all_seeds.clone(), alphabet: full.clone(), depth: 1 }, 1, "full"),
+        // models created with a locale different from the language (the stored settings must carry both)
+        (HistCfg { seeds: vec!["fresh:de/en", "fresh:en/de", "fresh:fr/es", "fresh:en-GB/it"], alphabet: full.clone(), depth: 1 }, 1, "full on fresh (locale/language) models"),
         (HistCfg { seeds: if thorough { all_seeds.clone() } else { vec!["basic"] }, alphabet: full.clone(), depth: 2 }, 2, "full"),
     ];
     if thorough {
@@ -93,7 +145,7 @@ pub fn run(run: &mut Run) {
     let mut keys = std::collections::HashSet::new();
     let mut bounds = vec![];
     for (cfg, len, name) in &plans {
-        let (outs, st, errs) = hist::explore(cfg, *len, &judge);
+        let (outs, st, errs) = hist::explore_permissive(cfg, *len, &judge);
         for e in errs {
             run.machinery_errors.push(e);
         }
@@ -105,7 +157,7 @@ pub fn run(run: &mut Run) {
             run.add_all(w.ds);
         }
         bounds.push(json!({"alphabet": name, "alphabet_size": cfg.alphabet.len(), "length": len, "seeds": cfg.seeds, "histories_ok": st.words}));
-        if run.elapsed() > if thorough { 3000.0 } else { 100.0 } {
+        if run.elapsed() > if thorough { 3000.0 } else { 600.0 } {
             run.cap_hit = Some(format!("wall clock after plan {} len {}", name, len));
             break;
         }
